@@ -414,17 +414,15 @@ func (w *Worker) selectResult(x *ssa.Select, idx int, recv Value, ok bool) Value
 // chooseFree: unconstrained n-ary decision (scheduler / select nondeterminism).
 func (w *Worker) chooseFree(n int) int {
 	d := w.dc
+	site := w.site(skFree)
 	if d.pos < len(d.prefix) {
-		v := d.prefix[d.pos]
-		d.pos++
-		d.taken = append(d.taken, v)
-		return v
+		return w.replayNext(d, site, "free choice")
 	}
 	d.pos++
 	for i := 1; i < n; i++ {
-		alt := append(append([]int{}, d.taken...), i)
+		alt := append(append([]int{}, d.taken...), encDec(site, i))
 		*d.queue = append(*d.queue, alt)
 	}
-	d.taken = append(d.taken, 0)
+	d.taken = append(d.taken, encDec(site, 0))
 	return 0
 }
